@@ -54,6 +54,9 @@ func (e *Engine) VerifyFunction(fn *ssa.Function, con *Contract, prof *Profile) 
 	for _, r := range con.Requires {
 		c.assume("", c.evalBool(env, r.E))
 	}
+	if con.NoPanicIf != nil {
+		c.noPanicIf = c.evalBool(env, con.NoPanicIf.E)
+	}
 	o := c.oblige("cover", "cover#requires", "true", "false", "preconditions satisfiable")
 	o.Expect = "sat"
 	if fn.Blocks == nil {
@@ -172,6 +175,14 @@ func (e *Engine) VerifyFunction(fn *ssa.Function, con *Contract, prof *Profile) 
 			c.fail("contract unbound: at_call %s: %s no longer calls it", callee, funcKey(fn))
 		}
 	}
+	for callee, css := range con.Capture {
+		for _, cs := range css {
+			if !con.captured[cs.Name] {
+				c.fail("contract unbound: capture %s: %s no longer calls %s", cs.Name, funcKey(fn), callee)
+			}
+		}
+	}
+	con.captured = nil
 	res.Obls = c.obls
 	return res
 }
